@@ -64,7 +64,7 @@ package inprocgrpc
 //@   ensures[C05] at_most_one_server_goroutine: calls("go") <= 1
 //@   chan_cap_bound[C20] 1
 //@   blocking_escape[C05,C04] ctx
-//@   loop loop#1 invariant[C08,C06] one_copy_per_response: (gotResponse <==> calls("inprocgrpc.Cloner.Copy") == 1) && calls("inprocgrpc.Cloner.Copy") <= 1 && calls("go") == 1 && calls("context.WithCancel") == 1 && !called("context.CancelFunc") && !called("internal.TranslateContextError")
+//@   loop loop#1 invariant[C08,C06] one_copy_per_response: (gotResponse <==> calls("inprocgrpc.Cloner.Copy") == 1) && calls("inprocgrpc.Cloner.Copy") <= 1 && calls("go") == 1 && calls("context.WithCancel") == 1 && !called("context.CancelFunc") && !called("internal.TranslateContextError") && !called(translateHandlerError)
 //@   loop loop#1 invariant[C02,C01] a_failed_copy_ends_the_loop: called("inprocgrpc.Cloner.Copy") ==> lastresult("inprocgrpc.Cloner.Copy") == nil
 //@   borrowed[C06] req until closed(ch) || recv_n(ch) >= 1
 //@   assert_call[C06,C01] inprocgrpc.Cloner.Clone : the_request_is_copied_before_the_server_side_starts: arg1 == req && !called("go")
@@ -74,8 +74,9 @@ package inprocgrpc
 //@   ensures[C08,C06] success_means_exactly_one_response_was_copied: result == nil && called("go") ==> calls("inprocgrpc.Cloner.Copy") == 1
 //@   assert_call[C06,C01] inprocgrpc.Cloner.Copy : response_is_copied_into_the_callers_message: arg1 == resp && arg2 == r.data && r.data != nil
 //@   ensures[C04] never_a_bare_context_error: called("go") && result != context.Canceled && result != context.DeadlineExceeded || !called("go") || called("inprocgrpc.Cloner.Copy")
-//@   ensures[C02,C04] error_frame_is_translated: called("internal.TranslateContextError") ==> result == lastresult("internal.TranslateContextError")
-//@   ensures[C04,C03,C02] success_only_if_the_context_was_live: called("go") && !called("internal.TranslateContextError") && (result == nil || (result == io.EOF && (!called("inprocgrpc.Cloner.Copy") || lastresult("inprocgrpc.Cloner.Copy") == nil))) ==> called("context.Context.Err") && lastresult("context.Context.Err") == nil && lastarg("context.Context.Err", 0) == lastresult("context.WithCancel", 0)
+//@   ensures[C02,C04] error_frame_is_translated: (called("internal.TranslateContextError") ==> result == lastresult("internal.TranslateContextError")) && (called(translateHandlerError) ==> result == lastresult(translateHandlerError))
+//@   assert_call[C02,C04] translateHandlerError : of_the_error_frame: arg0 == r.err && r.err != nil
+//@   ensures[C04,C03,C02] success_only_if_the_context_was_live: called("go") && !called("internal.TranslateContextError") && !called(translateHandlerError) && (result == nil || (result == io.EOF && (!called("inprocgrpc.Cloner.Copy") || lastresult("inprocgrpc.Cloner.Copy") == nil))) ==> called("context.Context.Err") && lastresult("context.Context.Err") == nil && lastarg("context.Context.Err", 0) == lastresult("context.WithCancel", 0)
 //@   assert_call[C03] (*internal.CallOptions).SetHeaders : header_frame_to_the_call_options: arg0 == lastresult("internal.GetCallOptions") && arg1 == r.headers
 //@   assert_call[C03] (*internal.CallOptions).SetTrailers : trailer_frame_to_the_call_options: arg0 == lastresult("internal.GetCallOptions") && arg1 == r.trailers
 //@   modifies everything
@@ -106,6 +107,15 @@ package inprocgrpc
 //@   blocking_escape[C05] remoteCtx
 //@   ensures[C04,C05] only_nil_eof_or_the_context_error: result == nil || result == io.EOF || result == ctx_err(ctx)
 //@   ensures[C05] eof_only_when_the_remote_side_is_done: result == io.EOF ==> remoteCtx != nil
+//@   modifies nothing
+//
+//@ func translateHandlerError
+//@   ensures[C02] a_handlers_error_never_looks_like_the_end_of_the_stream: result != io.EOF
+//@   ensures[C02] eof_from_a_handler_is_unknown: err == io.EOF ==> is_status_err(result) && err_status_code(result) == 2
+//@   ensures[C04] deadline: err == context.DeadlineExceeded ==> is_status_err(result) && err_status_code(result) == 4
+//@   ensures[C04] canceled: err == context.Canceled ==> is_status_err(result) && err_status_code(result) == 1
+//@   ensures[C02,C04] other_errors_unchanged: err != io.EOF && err != context.DeadlineExceeded && err != context.Canceled ==> result == err
+//@   ensures[C02,C04] nil_iff_nil: (result == nil) <==> (err == nil)
 //@   modifies nothing
 //
 //@ func readMessage
@@ -284,19 +294,21 @@ package inprocgrpc
 //@   borrowed[C06] m
 //@   locks_only[C05] nothing
 //@   requires held(&s.respMu)
-//@   loop loop#1 invariant[C01,C08] nothing_delivered_yet: !called("inprocgrpc.Cloner.Copy") && !called("(*inProcessClientStream).ensureNoMoreLocked") && !called("internal.TranslateContextError") && held(&s.respMu)
+//@   loop loop#1 invariant[C01,C08] nothing_delivered_yet: !called("inprocgrpc.Cloner.Copy") && !called("(*inProcessClientStream).ensureNoMoreLocked") && !called("internal.TranslateContextError") && !called(translateHandlerError) && held(&s.respMu)
 //@   ensures[C01,C06] at_most_one_copy_into_the_callers_message: calls("inprocgrpc.Cloner.Copy") <= 1
 //@   assert_call[C06,C01] inprocgrpc.Cloner.Copy : into_the_callers_message: arg0 == s.cloner && arg1 == m
 //@   assert_call[C01,C06] inprocgrpc.Cloner.Copy : peeked_frame_first_else_the_frame_just_read: arg2 != nil && (!called(readMessage) ==> old(s.last) != nil && arg2 == old(s.last.data)) && (called(readMessage) ==> arg2 == lastresult(readMessage, 0).data)
 //@   ensures[C20,C01] no_frame_is_held_back_after_a_streaming_receive: !lastMessage && result == nil && old(s.last) == nil ==> s.last == nil
 //@   ensures[C01] a_peeked_message_is_delivered_exactly_once: !lastMessage && !called(readMessage) && called("inprocgrpc.Cloner.Copy") && lastresult("inprocgrpc.Cloner.Copy") == nil ==> s.last == nil
 //@   assert_call[C01,C08] (*inProcessClientStream).ensureNoMoreLocked : the_delivered_frame_was_consumed_before_probing: arg0 == s && arg1 == m && (!called(readMessage) ==> s.last == nil)
-//@   ensures[C04,C02] every_failure_before_a_message_is_translated: !called("inprocgrpc.Cloner.Copy") ==> called("internal.TranslateContextError") && result == lastresult("internal.TranslateContextError")
+//@   ensures[C02] end_of_stream_is_reported_only_when_the_reply_channel_ended: result == io.EOF && !called("inprocgrpc.Cloner.Copy") ==> called(readMessage) && lastresult(readMessage, 1) == io.EOF
+//@   ensures[C04,C02] every_failure_before_a_message_is_translated: !called("inprocgrpc.Cloner.Copy") ==> (called("internal.TranslateContextError") && result == lastresult("internal.TranslateContextError")) || (called(translateHandlerError) && result == lastresult(translateHandlerError))
 //@   ensures[C08] single_response_mode_checks_for_extra_messages: lastMessage && called("inprocgrpc.Cloner.Copy") && lastresult("inprocgrpc.Cloner.Copy") == nil ==> calls("(*inProcessClientStream).ensureNoMoreLocked") == 1 && result == lastresult("(*inProcessClientStream).ensureNoMoreLocked")
 //@   ensures[C01] streaming_mode_returns_the_copy_result: !lastMessage && called("inprocgrpc.Cloner.Copy") ==> result == lastresult("inprocgrpc.Cloner.Copy") && !called("(*inProcessClientStream).ensureNoMoreLocked")
 //@   ensures[C01] copy_error_is_returned: called("inprocgrpc.Cloner.Copy") && lastresult("inprocgrpc.Cloner.Copy") != nil ==> result == lastresult("inprocgrpc.Cloner.Copy")
 //@   assert_call[C03] (*internal.CallOptions).SetHeaders : header_frame_to_stream_and_options: arg0 == s.copts && arg1 == r.headers && s.headers == r.headers && r.headers != nil && s.state == 1
-//@   assert_call[C02,C05] internal.TranslateContextError : stream_state_follows_what_ended_it: (called(readMessage) && lastresult(readMessage, 1) == io.EOF ==> s.state == 2) && (called(readMessage) && lastresult(readMessage, 1) == nil ==> s.state == 2 && s.last != nil && s.last.err == arg0 && arg0 != nil) && (!called(readMessage) ==> s.state == 2 && old(s.last) != nil && arg0 == old(s.last.err))
+//@   assert_call[C02,C05] internal.TranslateContextError : only_for_a_failed_read_and_the_state_follows: called(readMessage) && lastresult(readMessage, 1) != nil && arg0 == lastresult(readMessage, 1) && (lastresult(readMessage, 1) == io.EOF ==> s.state == 2)
+//@   assert_call[C02,C05] translateHandlerError : of_the_error_frame_and_the_stream_is_closed: s.state == 2 && (called(readMessage) ==> lastresult(readMessage, 1) == nil && s.last != nil && s.last.err == arg0 && arg0 != nil) && (!called(readMessage) ==> old(s.last) != nil && arg0 == old(s.last.err))
 //@   assert_call[C03] (*internal.CallOptions).SetTrailers : trailer_frame_to_stream_and_options: arg0 == s.copts && arg1 == r.trailers && s.trailers == r.trailers && r.trailers != nil
 //@   assert_call[C01,C04] readMessage : next_response_frame_with_the_stream_context: arg0 == s.ctx && arg1 == s.responses
 //@   modifies s.state, s.last, s.headers, s.trailers, mem("metadata.MD"), mem("error"), external
